@@ -67,6 +67,8 @@ IMMEDIATE = [
     "flow z\n  await A1Action(x=1)\n\nflow main\n  activate z\n  match E1()\n  match Never()\n",
     "flow a\n  match E1()\n  abort\n\nflow b\n  await a\n\nflow main\n  activate b\n  match Never()\n",
     "flow z\n  when E1()\n    send Out1()\n  or when E2()\n    abort\n\nflow main\n  activate z\n  match Never()\n",
+    # an activated flow whose only wait is for a flow that finishes immediately
+    "flow b\n  $x = 1\n\nflow z\n  await b\n\nflow main\n  activate z\n  match E1()\n  send Out1()\n  match Never()\n",
 ]
 
 
@@ -130,7 +132,9 @@ FAULTS = {
     "start-args": "start A1Action(x=$undefined_var.foo)",
     "match-args": "match E2(x=$undefined_var.foo)",
     "match-regex": 'match E2(x=regex("("))',
-    "match-ref": "match $undefined_ref.Finished()",     # fails when the head MOVES to the statement (the event name is needed for the index)
+    "match-ref": "match $undefined_ref.Finished()",
+    "start-surplus": "start g 1 2 3",                    # more positional arguments than the flow has parameters
+    "send-invalid-action": "send StartUtteranceBotAction()",   # an action event that fails its validation when it is created     # fails when the head MOVES to the statement (the event name is needed for the index)
     "priority": 'priority "high"',
     "index": "$x = [1, 2][5]",
 }
@@ -147,6 +151,7 @@ def fault_program(fault_stmt, position, kid=False):
     return ('@loop("lp")\nflow probe\n  while True\n    match ColangError()\n    send WErr()\n\n'
             # (the child only waits: a `send` in f's interaction loop would compete with f's own statements)
             'flow kid\n  match E2()\n  match E1()\n  match E3()\n  match E2()\n\n'
+            'flow g $a\n  match Never3()\n\n'
             '@loop("lf")\nflow f\n%s\n\n'
             '@loop("lw1")\nflow w1\n  while True\n    match E1()\n    send W1a()\n    match E2()\n    send W1b()\n\n'
             '@loop("lw2")\nflow w2\n  while True\n    when E2()\n      send W2x()\n    or when E3()\n      send W2y()\n\n'
@@ -327,7 +332,7 @@ def run(ctx):
             ctx.violation("step-bound", "processing %s took %s micro steps (> bound %d for %d elements / %d live instances), origin %s" % (
                 b["ev"], "more than %d" % HARD_CAP if b.get("nonterm") else b["steps"], v["bound"], b["elements"], b["instances"], b["origin"]),
                 {"origin": b["origin"], "source": srcs.get(b["origin"]), "event": b["ev"], "steps": b["steps"],
-                 "sig": {"kind": "step-bound", "origin_class": b["origin"].split(":")[0], "nonterm": bool(b.get("nonterm"))}})
+                 "sig": {"kind": "step-bound", "origin_class": b["origin"].split(":")[0], "origin": b["origin"], "nonterm": bool(b.get("nonterm"))}})
     for j, x in enumerate(faults, start=len(bounds) + 1):
         v = verd[j]
         if v["ok"]:
